@@ -33,6 +33,9 @@ type c08Input struct {
 	// TruncEnd: the input is cut to less than one read chunk, ends with a word and then the first byte(s) of a
 	// multi-byte sequence (a file read up to some byte count).
 	TruncEnd int `json:"truncend,omitempty"`
+	// Hyph: every Hyph-th word with at least 4 ASCII letters is broken over two lines with a hyphen (ASCII or one of
+	// the typographic ones, in turn) and 0-8 blanks of indentation in front of the remainder (0 = off).
+	Hyph int `json:"hyph,omitempty"`
 	// TruncLen (with TruncEnd): multi-byte letters are put in front so that the input is exactly this many bytes
 	// long (lengths around one read chunk: what lies one chunk before the cut-off tail is a continuation byte).
 	TruncLen int `json:"trunclen,omitempty"`
@@ -46,6 +49,9 @@ func (in c08Input) build(cl *Classifier) []byte {
 		ls := splitLines(b)
 		ls, _, _ = applyXforms(ls, []xform{{Kind: "dashes", Arg: 1, All: true}, {Kind: "quotes", Arg: 0, All: true}})
 		b = joinLines(ls)
+	}
+	if in.Hyph > 0 {
+		b = c08Hyphenate(b, in.Hyph)
 	}
 	if in.Every > 0 {
 		var out bytes.Buffer
@@ -104,10 +110,50 @@ func (in c08Input) build(cl *Classifier) []byte {
 	return b
 }
 
+var c08Hyphens = []string{"-", "\u2010", "-", "\u2013", "\u2014", "-", "\u2012"}
+
+func c08Hyphenate(b []byte, every int) []byte {
+	isL := func(c byte) bool { return (c >= 'a' && c <= 'z') || (c >= 'A' && c <= 'Z') }
+	var out bytes.Buffer
+	words, k := 0, 0
+	for i := 0; i < len(b); {
+		if !isL(b[i]) || (i > 0 && b[i-1] >= 0x80) {
+			out.WriteByte(b[i])
+			i++
+			continue
+		}
+		j := i
+		for j < len(b) && isL(b[j]) {
+			j++
+		}
+		// a plain word: ASCII letters only, blank or line break on both sides
+		plain := j-i >= 4 && (i == 0 || b[i-1] == ' ' || b[i-1] == '\n') && (j == len(b) || b[j] == ' ' || b[j] == '\n')
+		if plain {
+			words++
+		}
+		if plain && words%every == 0 {
+			h := i + 2 + k%(j-i-3)
+			out.Write(b[i:h])
+			out.WriteString(c08Hyphens[k%len(c08Hyphens)])
+			out.WriteByte('\n')
+			out.WriteString(strings.Repeat(" ", (k*5)%9))
+			out.Write(b[h:j])
+			k++
+		} else {
+			out.Write(b[i:j])
+		}
+		i = j
+	}
+	return out.Bytes()
+}
+
 func genC08Input(t *rapid.T) c08Input {
 	in := c08Input{X: genRecipe(t, 0.8), Typo: lib.Bool(t, "typo")}
 	if lib.IntN(t, 0, 2, "every") == 0 {
 		in.Every = lib.IntN(t, 61, 400, "everyN")
+	}
+	if lib.IntN(t, 0, 2, "hyph") == 0 {
+		in.Hyph = lib.IntN(t, 3, 60, "hyphN")
 	}
 	n := lib.IntN(t, 0, 8, "ninject")
 	for i := 0; i < n; i++ {
@@ -237,7 +283,7 @@ func c08FragCheck(ci interface{}) lib.Outcome {
 		cl.Match([]byte("x" + strings.Repeat("é", 700)))
 	}
 	got, err := cl.MatchFrom(&schedReader{data: append([]byte{}, in...), sched: c.Sched, eofWithData: c.EOFWithData, zeroReads: c.ZeroReads})
-	desc := fmt.Sprintf("input %s (typo=%v every=%d inject=%d longrun=%d truncend=%d trunclen=%d, %d bytes)", c.In.X.describe(), c.In.Typo, c.In.Every, len(c.In.Inject), c.In.LongRun, c.In.TruncEnd, c.In.TruncLen, len(in))
+	desc := fmt.Sprintf("input %s (typo=%v every=%d inject=%d longrun=%d truncend=%d trunclen=%d hyph=%d, %d bytes)", c.In.X.describe(), c.In.Typo, c.In.Every, len(c.In.Inject), c.In.LongRun, c.In.TruncEnd, c.In.TruncLen, c.In.Hyph, len(in))
 	if err != nil {
 		return lib.Outcome{Violation: fmt.Sprintf("%s: MatchFrom(schedule %v, eofWithData=%v, zeroReads=%v) returned error %v", desc, c.Sched, c.EOFWithData, c.ZeroReads, err)}
 	}
@@ -265,6 +311,9 @@ func c08FragCheck(ci interface{}) lib.Outcome {
 	}
 	if c.In.LongRun > 0 {
 		classes = append(classes, "long-line")
+	}
+	if c.In.Hyph > 0 {
+		classes = append(classes, "words-hyphenated-over-line-breaks")
 	}
 	if c.In.TruncEnd > 0 {
 		classes = append(classes, "ends-in-cut-off-multibyte-sequence")
@@ -399,7 +448,7 @@ func c08SweepInput(cl *Classifier, k int) c08Input {
 	}
 	switch k % 4 {
 	case 0:
-		return c08Input{X: recipe{Segs: []seg{{Kind: "doc", Doc: find("MIT", "License")}}}, Typo: true, Every: 67}
+		return c08Input{X: recipe{Segs: []seg{{Kind: "doc", Doc: find("MIT", "License")}}}, Typo: true, Every: 67, Hyph: 9}
 	case 1:
 		return c08Input{X: recipe{Segs: []seg{{Kind: "doc", Doc: find("BSD-3-Clause", "License")}, {Kind: "doc", Doc: find("Apache-2.0", "Header")}}}, Typo: true, Every: 89,
 			Inject: []c08Inj{{Pos: 1019, Kind: 2}, {Pos: 2040, Kind: 1}, {Pos: 700, Kind: 3}}}
@@ -506,7 +555,7 @@ func c08SweepCheck(ci interface{}) lib.Outcome {
 
 func TestVerif_C08_Fragmentation(t *testing.T) {
 	lib.Run(t, lib.Spec{ID: "C08", Part: "fragmentation",
-		Rule: "inputs = generated license texts with typographic dashes/quotes everywhere, 4-byte runes every N bytes, spliced multi-byte / invalid UTF-8 fragments and lines of 1019..70000 bytes without blanks; reader schedules of 1-5 chunk sizes from {1,2,3,7,64,1019..1025,2048,4096,100000}, data-with-EOF, zero-length reads; pad widths 0..2056 (half of them near 1020/2044); oracle MatchFrom(reader) == Match(bytes) == Match(pad+bytes) bit-identically; non-trivial = input > 1020 bytes with a non-ASCII byte within 4 bytes of a buffer boundary; full corpus at 0.8",
+		Rule: "inputs = generated license texts with typographic dashes/quotes everywhere, every N-th word broken over two lines with an ASCII or typographic hyphen and indentation, 4-byte runes every N bytes, spliced multi-byte / invalid UTF-8 fragments and lines of 1019..70000 bytes without blanks; reader schedules of 1-5 chunk sizes from {1,2,3,7,64,1019..1025,2048,4096,100000}, data-with-EOF, zero-length reads; pad widths 0..2056 (half of them near 1020/2044); oracle MatchFrom(reader) == Match(bytes) == Match(pad+bytes) bit-identically; non-trivial = input > 1020 bytes with a non-ASCII byte within 4 bytes of a buffer boundary; full corpus at 0.8",
 		New:  func() interface{} { return &c08Frag{} }, Gen: c08FragGen, Check: c08FragCheck})
 }
 
